@@ -367,7 +367,7 @@ class TDMProgram(Program):
     @property
     def measured_modes(self):
         """The number of measured modes in the program returned as a list."""
-        return list(self._measured_modes)
+        return sorted(self._measured_modes)
 
     @property
     def timebins(self):
